@@ -6,7 +6,7 @@ model (ocaml/union) replays every transcript; the property oracles are evaluated
 implementation's outputs against a specification map (snapshot overlaid with the writes in program order,
 savepoints = previous versions) and against the implementation's own earlier observations (restore oracles).
 Failing programs are minimised in process by the driver; this script classifies the minimised program."""
-import os, time, json, tempfile
+import os, time, json, tempfile, shutil
 import vlib
 from vlib import Verdict
 
@@ -49,7 +49,7 @@ def classify(minprog, oracle, fired):
 
 
 def run_driver(exe, modelrun, env, progs=None, timeout=2400):
-    """returns (transcript lines, model output lines, error)"""
+    """returns (transcript file, model output lines, error); the transcript can be large: stream it"""
     td = tempfile.mkdtemp(prefix="c07-", dir=vlib.BUILD)
     outp = os.path.join(td, "transcript.tsv")
     env = dict(env); env["VERIF_OUT"] = outp
@@ -61,16 +61,10 @@ def run_driver(exe, modelrun, env, progs=None, timeout=2400):
     rc, log = vlib.sh(cmd, env=env, timeout=timeout)
     if rc != 0 or not os.path.exists(outp):
         return None, None, "driver failed rc=%d: %s" % (rc, log[-800:])
-    with open(outp) as fh:
-        rc, mout = vlib.sh("%s < %s" % (modelrun, outp), timeout=timeout)
+    rc, mout = vlib.sh("%s < %s" % (modelrun, outp), timeout=timeout)
     if rc != 0:
         return None, None, "modelrun failed: " + mout[-500:]
-    lines = open(outp).read().split("\n")
-    try:
-        os.remove(outp); os.rmdir(td) if progs is None else None
-    except OSError:
-        pass
-    return lines, mout.split("\n"), None
+    return outp, mout.split("\n"), None
 
 
 def main(tier, replay):
@@ -99,13 +93,13 @@ def main(tier, replay):
         progs = None
         if replay:
             progs = json.load(open(replay)).get("case")
-        lines, mout, err = run_driver(exe, modelrun, env, progs)
+        tfile, mout, err = run_driver(exe, modelrun, env, progs)
         if err:
             v.violation({"kind": "harness", "correspondence": "Union driver (unionstore) / extracted model", "error": err}, has_input=False)
         else:
             target = ""
-            for l in lines:
-                f = l.split("\t")
+            for l in open(tfile):
+                f = l.rstrip("\n").split("\t")
                 if f[0] == "PROG":
                     target = f[2]
                     if len(samples) < 3:
@@ -114,15 +108,16 @@ def main(tier, replay):
                     if samples and len(samples[-1]["ops"]) < 14 and f[1] == str(len(samples)):
                         samples[-1]["ops"].append(" ".join(x[:60] for x in f[3:]))
                     if f[3] in ("get", "bget", "iter", "riter") and f[-1] not in ("-", "nf") and not f[-1].endswith("res=-"):
-                        distinct.add((target, f[3], tuple(f[4:])))
+                        distinct.add(hash((target, f[3], tuple(f[4:]))))
                     elif f[3] in ("cleanup", "revert", "release"):
-                        distinct.add((target, f[1], f[2]))
+                        distinct.add(hash((target, f[1], f[2])))
                 elif f[0] == "FAIL":
                     fails.append(f)
                 elif f[0] == "PSTAT":
                     pstat[f[1]] = (int(f[2]), int(f[3]))
                 elif f[0] == "GSTAT":
                     gstat[f[1]] = int(f[2])
+            shutil.rmtree(os.path.dirname(tfile), ignore_errors=True)
             for l in mout:
                 f = l.split("\t")
                 if f[0] == "STATS":
@@ -152,6 +147,7 @@ def main(tier, replay):
         if okg and okm and len(seen_min) <= 8:
             l2, m2, e2 = run_driver(exe, modelrun, env, [minprog], timeout=120)
             if not e2:
+                shutil.rmtree(os.path.dirname(l2), ignore_errors=True)
                 obj["model_vs_implementation"] = [x for x in m2 if x.startswith("MISMATCH")] or "faithful model (in-place overwrite on) agrees with the implementation on every op of this program"
         cls = classify(minprog, oracle, fired)
         if cls:
@@ -166,6 +162,8 @@ def main(tier, replay):
         v.violation({"kind": "correspondence", "correspondence": "Union model (Model.v, faithful buffer) vs unionstore/KVTxn",
                      "line": m, "what": "model and implementation disagree on program %s op %s; no property-oracle failure in that program (%d oracle evaluations in this run)"
                      % (m[0], m[1], sum(n for n, _ in pstat.values()))}, has_input=False)
+    if gstat.get("failing-programs-not-classified"):
+        v.violation({"kind": "harness", "correspondence": "unionstore driver", "what": "%d failing programs were not minimised/classified (cap reached)" % gstat["failing-programs-not-classified"]}, has_input=False)
     if proof_broken:
         v.violation({"kind": "proof", "theorem_or_file": gate["problems"], "what": "Coq obligations no longer check"}, has_input=False)
     n_oracle = sum(n for n, _ in pstat.values())
